@@ -1081,6 +1081,8 @@ class Engine:
                 for stmt in self.repo.classes[c][1].body:
                     if isinstance(stmt, ast.Assign) and any(isinstance(t, ast.Name) and t.id == n.attr for t in stmt.targets):
                         return self.ev(stmt.value, st)
+            if getattr(self, "missing_attr_raises", False):          # closed world of the loaded classes: the class has no such attribute
+                raise PyRaise("AttributeError")
             raise Unsupported(f"attribute {base.cls}.{n.attr}")
         if isinstance(base, VOpaque) and isinstance(base.tag, tuple) and base.tag[0] == "map" and n.attr in ("keys", "values", "items", "copy"):
             return VBound(base, n.attr)
@@ -1212,6 +1214,8 @@ class Engine:
         return VSeq(FnArr(lambda k_: z3.If(k_ < a.len, a.arr[k_], b.arr[k_ - a.len])), a.len + b.len, pylist=True)
 
     def binop(self, op, a, b, n=None):
+        if getattr(a, "absorbing", False) or getattr(b, "absorbing", False):
+            return (a if getattr(a, "absorbing", False) else b).absorb(type(op).__name__)
         if isinstance(op, ast.Mod) and getattr(self, "mod_model", None) is not None:
             return self.mod_model(self, a, b)
         if (isinstance(a, VNone) and isinstance(b, (VNum, VSeq, VMat))) or (isinstance(b, VNone) and isinstance(a, (VNum, VSeq, VMat))):
@@ -1275,6 +1279,10 @@ class Engine:
         conj = []
         for op, rn in zip(n.ops, n.comparators):
             right = self.ev(rn, st)
+            if (getattr(left, "absorbing", False) or getattr(right, "absorbing", False)) and not isinstance(op, (ast.Is, ast.IsNot)):
+                conj.append(z3.FreshConst(z3.BoolSort(), "opaque_compare"))       # comparison involving an opaque value: undetermined
+                left = right
+                continue
             if isinstance(op, (ast.In, ast.NotIn)) and isinstance(right, VTuple) and isinstance(left, VBound) and all(isinstance(q_, VBound) for q_ in right.items):
                 c = z3.Or([z3.BoolVal(False)] + [left.recv.e == q_.recv.e for q_ in right.items if q_.name == left.name])
                 conj.append(c if isinstance(op, ast.In) else z3.Not(c))
@@ -1295,6 +1303,11 @@ class Engine:
                 continue
             if isinstance(op, (ast.In, ast.NotIn)) and isinstance(right, VTuple) and isinstance(left, VNum) and all(isinstance(q_, VNum) for q_ in right.items):
                 c = z3.Or([z3.BoolVal(False)] + [num_pair(left, q_)[0] == num_pair(left, q_)[1] for q_ in right.items])
+                conj.append(c if isinstance(op, ast.In) else z3.Not(c))
+                left = right
+                continue
+            if isinstance(op, (ast.In, ast.NotIn)) and isinstance(right, VPySet) and isinstance(left, (VStr, VNum)):
+                c = z3.BoolVal(self.key_of(left) in right.items)
                 conj.append(c if isinstance(op, ast.In) else z3.Not(c))
                 left = right
                 continue
@@ -1531,8 +1544,16 @@ class Engine:
                 return VSuper(args[1], args[0].name[6:])
             return VSuper(st.locals["self"], self._owner_stack[-1])
         if isinstance(f, VLib):
+            ab_ = [a_ for a_ in list(args) + list(kw.values()) if getattr(a_, "absorbing", False)]
             if f.name in self.lib:
+                if ab_:
+                    try:
+                        return self.lib[f.name](self, st, args, kw, n)
+                    except (AttributeError, TypeError, KeyError, Unsupported):
+                        return ab_[0].absorb(f.name)          # the model does not know opaque values: a library function of an opaque value is an opaque value
                 return self.lib[f.name](self, st, args, kw, n)
+            if ab_:
+                return ab_[0].absorb(f.name)
             raise Unsupported("library call " + f.name)
         if hasattr(f, "vcall"):
             return f.vcall(self, st, args, kw)
@@ -2319,6 +2340,8 @@ class Engine:
             it = VTuple([VTuple([VNum(z3.IntVal(q_)), x_]) for q_, x_ in enumerate(it.inner.items)])
         if isinstance(it, VPySet):
             it = VTuple([VStr(x) if isinstance(x, str) else VNum(z3.IntVal(x)) for x in sorted(it.items, key=str)])
+        if isinstance(it, VRange) and self.cur_loops["ids"].get(id(n)) not in self.cur_loops["inv"] and isinstance(concrete_range(it), VTuple) and len(concrete_range(it).items) <= 8:
+            it = concrete_range(it)          # range with small concrete bounds and no invariant given: unrolled (the contract module states the bound)
         if isinstance(it, VTuple):
             outs = [(st, "next", None)]
             for item in list(it.items):
